@@ -191,7 +191,7 @@ class Ctx:
 
 
 SPEC_BUILTINS = {"requires", "ensures", "raises", "modifies", "reads", "types", "returns", "invariant",
-                 "decreases", "ghost", "assume_contract", "may_raise", "pure", "foreach", "bounded", "shares", "cut_after",
+                 "decreases", "ghost", "assume_contract", "may_raise", "pure", "foreach", "bounded", "shares", "cut_after", "must_raise", "not_called",
                  "names_distinct"}
 
 
@@ -860,16 +860,30 @@ class Exec:
                 del st.pc[n:]
         if not res:
             raise Unsupported("dynamic value without feasible alternative (infeasible path)")
-        cur = res[-1][1]
-        for g, r in reversed(res[:-1]):
-            if isinstance(cur, z3.ExprRef) and isinstance(r, z3.ExprRef):
-                cur = t_ite(g, r, cur)
-            else:
-                try:
-                    cur = self.v_ite(g, r, cur)
-                except NeedSplit:
-                    raise NeedSplit(z3.simplify(g))
-        return cur
+
+        def merge(res):
+            cur = res[-1][1]
+            for g, r in reversed(res[:-1]):
+                if isinstance(cur, z3.ExprRef) and isinstance(r, z3.ExprRef):
+                    cur = t_ite(g, r, cur)
+                else:
+                    try:
+                        cur = self.v_ite(g, r, cur)
+                    except NeedSplit:
+                        raise NeedSplit(z3.simplify(g))
+            return cur
+        try:
+            return merge(res)
+        except NeedSplit:
+            # results of different shapes cannot be merged: before asking for a case split on a tag, drop the
+            # alternatives the path condition excludes (splitting on an excluded tag would be asked for again
+            # and again: the excluded alternative still produces a value)
+            feas = [(g, r) for g, r in res if not self.implied(st, z3.simplify(z3.Not(g)))]
+            if not feas:
+                raise Unsupported("dynamic value without feasible alternative (infeasible path)")
+            if len(feas) == len(res):
+                raise
+            return merge(feas)
 
     def narrow(self, st, v):
         """Reduce a dynamic value to one alternative when the path condition determines its tag."""
